@@ -145,6 +145,35 @@ def readRfc3339 (s : Bytes) : Option (Int × Nat × Int) := do
   let loc : Int := specDays y mo d * 86400 + ((h * 3600 + mi * 60 + sec : Nat) : Int)
   some (loc - off, nanos, off)
 
+/-! ### writing an RFC 3339 date-time (used to state instant preservation) -/
+
+def two (n : Nat) : Bytes := [digitChar (n / 10 % 10), digitChar (n % 10)]
+def three (n : Nat) : Bytes := [digitChar (n / 100 % 10), digitChar (n / 10 % 10), digitChar (n % 10)]
+def four (n : Nat) : Bytes :=
+  [digitChar (n / 1000 % 10), digitChar (n / 100 % 10), digitChar (n / 10 % 10), digitChar (n % 10)]
+
+/-- optional `time-secfrac` with millisecond digits -/
+def fracText : Option Nat → Bytes
+  | none => []
+  | some ms => 46 :: three ms
+
+def fracNanosOf : Option Nat → Nat
+  | none => 0
+  | some ms => ms * 1000000
+
+/-- `YYYY-MM-DDTHH:MM:SS[.mmm]±hh:mm` (RFC 3339 §5.6 with a `time-numoffset`) -/
+def rfc3339Text (Y m d H Mi S : Nat) (ms : Option Nat) (neg : Bool) (oh om : Nat) : Bytes :=
+  four Y ++ 45 :: (two m ++ 45 :: (two d ++ 84 :: (two H ++ 58 :: (two Mi ++ 58 :: (two S ++
+    (fracText ms ++ ((if neg then 45 else 43) :: (two oh ++ 58 :: two om))))))))
+
+/-- the offset in seconds east of UTC -/
+def offsetSeconds (neg : Bool) (oh om : Nat) : Int :=
+  if neg then -((oh * 3600 + om * 60 : Nat) : Int) else ((oh * 3600 + om * 60 : Nat) : Int)
+
+/-- RFC 3339 §4: local time = UTC + offset, so the instant is local − offset -/
+def rfc3339Instant (Y m d H Mi S : Nat) (neg : Bool) (oh om : Nat) : Int :=
+  specDays Y m d * 86400 + ((H * 3600 + Mi * 60 + S : Nat) : Int) - offsetSeconds neg oh om
+
 def dayNames : List Bytes :=
   [[77, 111, 110], [84, 117, 101], [87, 101, 100], [84, 104, 117], [70, 114, 105], [83, 97, 116], [83, 117, 110]]
 
